@@ -17,9 +17,9 @@ Inductive case :=
 
 (* The variant of the model the implementation is compared with.  The
    integrator flips this when proposed_fixes/C08-F09.diff lands in /repo. *)
-Definition code_fixed_F09 := false.
+Definition code_fixed_F09 := true.
 (* idem for proposed_fixes/C08-F29.diff (identity message without public key) *)
-Definition code_fixed_F29 := false.
+Definition code_fixed_F29 := true.
 (* the relay defect (F28) has no small compatible patch (the signed bytes change);
    the flag exists so that a tree carrying the binding can be checked too -- the
    harness detects by itself which bytes the code under test signs *)
